@@ -977,3 +977,128 @@ Proof.
   - exact (created_once_same_tag _ T3).
   - exact T5.
 Qed.
+
+(** * order: within one work connection the tunnel is a FIFO pipeline *)
+
+Inductive usubseq {A} : list A -> list A -> Prop :=
+| uss_nil : usubseq [] []
+| uss_skip x l1 l2 : usubseq l1 l2 -> usubseq l1 (x :: l2)
+| uss_keep x l1 l2 : usubseq l1 l2 -> usubseq (x :: l1) (x :: l2).
+
+Lemma usubseq_nil_l {A} (l : list A) : usubseq [] l.
+Proof. induction l; [apply uss_nil|apply uss_skip; assumption]. Qed.
+
+Lemma usubseq_snoc_r {A} (a b : list A) x : usubseq a b -> usubseq a (b ++ [x]).
+Proof.
+  induction 1; cbn [app].
+  - apply uss_skip. apply uss_nil.
+  - apply uss_skip. assumption.
+  - apply uss_keep. assumption.
+Qed.
+
+Lemma usubseq_snoc_both {A} (a b : list A) x : usubseq a b -> usubseq (a ++ [x]) (b ++ [x]).
+Proof.
+  induction 1; cbn [app].
+  - apply uss_keep. apply uss_nil.
+  - apply uss_skip. assumption.
+  - apply uss_keep. assumption.
+Qed.
+
+Lemma usubseq_drop_head {A} (a b : list A) x : usubseq (x :: a) b -> usubseq a b.
+Proof.
+  intros H. remember (x :: a) as l eqn:E. revert x a E.
+  induction H as [|y l1 l2 H IH|y l1 l2 H IH]; intros x a E; [discriminate| |].
+  - apply uss_skip. eapply IH. exact E.
+  - inversion E; subst. apply uss_skip. exact H.
+Qed.
+
+Lemma usubseq_drop_mid {A} (a m b l : list A) : usubseq (a ++ m ++ b) l -> usubseq (a ++ b) l.
+Proof.
+  revert l. induction a as [|x a IH]; cbn [app]; intros l H.
+  - induction m as [|y m IHm]; cbn [app] in H; [exact H|]. apply IHm. eapply usubseq_drop_head. exact H.
+  - remember (x :: a ++ m ++ b) as l0 eqn:E. revert E.
+    induction H as [|y l1 l2 H IH2|y l1 l2 H IH2]; intros E; [discriminate| |].
+    + apply uss_skip. auto.
+    + inversion E; subst. apply uss_keep. auto.
+Qed.
+
+Lemma usubseq_refl {A} (l : list A) : usubseq l l.
+Proof. induction l; [apply uss_nil|apply uss_keep; assumption]. Qed.
+
+Lemma usubseq_trans {A} (a b c : list A) : usubseq a b -> usubseq b c -> usubseq a c.
+Proof.
+  intros H1 H2. revert a H1. induction H2 as [|x l1 l2 H IH|x l1 l2 H IH]; intros a H1.
+  - inversion H1; subst. apply uss_nil.
+  - apply uss_skip. auto.
+  - inversion H1; subst; [apply uss_skip; auto|apply uss_keep; auto].
+Qed.
+
+Lemma usubseq_app_l {A} (a b b' : list A) : usubseq b b' -> usubseq (a ++ b) (a ++ b').
+Proof. intros H. induction a; cbn [app]; [exact H|apply uss_keep; assumption]. Qed.
+
+Lemma usubseq_skip_block {A} (m b b' : list A) : usubseq b b' -> usubseq b (m ++ b').
+Proof. intros H. induction m; cbn [app]; [exact H|apply uss_skip; assumption]. Qed.
+
+Ltac sub_solve :=
+  repeat first
+    [ apply usubseq_refl
+    | apply usubseq_app_l
+    | apply uss_keep
+    | apply usubseq_nil_l
+    | apply uss_skip
+    | apply usubseq_skip_block ].
+
+Definition is_replace (e : uev) : bool := match e with EWorkConnReplaced => true | _ => false end.
+
+Definition ufifo (st : ust) : list upacket := c_readq st ++ w_sc st ++ s_sendq st.
+
+Definition order_inv c (h : list uev) (st : ust) (tr : list uout) : Prop :=
+  c_oldq st = [] /\ usubseq (ubackend tr ++ map upview (ufifo st)) (usent c h).
+
+Lemma order_step c h st tr e :
+  is_replace e = false -> order_inv c h st tr ->
+  order_inv c (h ++ [e]) (fst (ustep c st e)) (tr ++ snd (ustep c st e)).
+Proof.
+  unfold order_inv, ufifo. intros He [Hold H]. rewrite usent_snoc.
+  ustep_open st e; try discriminate He; cbn [c_oldq c_readq w_sc s_sendq] in *; subst.
+  all: try (match goal with E : nth_error [] ?k = Some _ |- _ => destruct k; discriminate E end).
+  all: split; [try reflexivity|].
+  all: autorewrite with ucnt; cbn [ubackend flat_map app]; rewrite ?app_nil_r.
+  all: repeat match goal with |- context [flat_map ?f (?x ++ ?y)] => change (flat_map f (x ++ y)) with (ubackend (x ++ y)) end.
+  all: autorewrite with ucnt; cbn [app].
+  all: rewrite ?upview_new.
+  all: repeat rewrite map_app in *; cbn [map] in *; repeat rewrite <- app_assoc in *; cbn [app] in *.
+  all: try exact H.
+  all: unfold upview in *; repeat match goal with E : get_content _ = _ |- _ => rewrite E in *; clear E end.
+  all: try exact H.
+  all: rewrite ?app_nil_r in *.
+  all: try exact H.
+  all: try (eapply usubseq_trans; [|exact H]; sub_solve; fail).
+  - cbn [new_udp_packet up_raddr]. rewrite get_content_new.
+    rewrite !app_assoc. apply usubseq_snoc_both. rewrite <- !app_assoc. exact H.
+  - apply usubseq_snoc_r. exact H.
+Qed.
+
+Theorem order_preserved c h :
+  forallb (fun e => negb (is_replace e)) h = true ->
+  let st0 := fst (ustep c uinit EWorkConnReplaced) in
+  usubseq (ubackend (snd (urun c st0 h))) (usent c h).
+Proof.
+  intros Hh st0.
+  assert (Hi : order_inv c h (fst (urun c st0 h)) (snd (urun c st0 h))).
+  { revert Hh. apply (urun_invariant c (fun h st tr => forallb (fun e => negb (is_replace e)) h = true -> order_inv c h st tr)).
+    - intros _. split; [reflexivity|]. cbn. apply uss_nil.
+    - intros h0 st tr e IH Hok. rewrite forallb_snoc in Hok. apply andb_true_iff in Hok.
+      destruct Hok as [Hh He]. apply order_step; [now apply negb_true_iff in He|auto]. }
+  destruct Hi as [_ Hi]. eapply usubseq_trans; [|exact Hi].
+  rewrite <- (app_nil_r (ubackend _)) at 1. apply usubseq_app_l. apply usubseq_nil_l.
+Qed.
+
+(* a subsequence keeps the relative order of any two elements, in particular per user *)
+Lemma usubseq_filter {A} (f : A -> bool) (a b : list A) : usubseq a b -> usubseq (filter f a) (filter f b).
+Proof.
+  induction 1 as [|x l1 l2 H IH|x l1 l2 H IH]; cbn [filter].
+  - apply uss_nil.
+  - destruct (f x); [apply uss_skip|]; assumption.
+  - destruct (f x); [apply uss_keep|]; assumption.
+Qed.
